@@ -493,29 +493,17 @@ pub extern "C" fn chk_agree(ptr: *const u8, n: usize) -> u32 {
 // ------------------------------------------------------------------------------------------------
 // C16 capacity
 // ------------------------------------------------------------------------------------------------
-pub fn capacity<const L: usize, const LM1: usize>(p: &[u8]) -> u32 {
-    let frame = spec_encode(p);
-    // capacity exactly L: delivered
-    expect_single::<ArrayBuf<L>>(&frame, p, 1600);
-    {
-        let mut r = SmlReader::with_static_buffer::<L>().from_slice(&frame);
-        match r.next::<DecodedBytes>() {
-            Some(Ok(m)) => {
-                if m != p {
-                    fail(1611);
-                }
-            }
-            _ => fail(1610),
-        }
+/// capacity C < |p|: exactly one OutOfMemory inside the frame, never data for it, and the next (fitting) frame is
+/// delivered unaltered
+fn under<const C: usize>(p: &[u8], frame: &[u8]) {
+    if C >= p.len() {
+        return;
     }
-    if L == 0 {
-        return 0;
-    }
-    // capacity L-1: out of memory for this frame, never data; the next frame is delivered
-    let m2: Vec<u8> = p[..L - 1].iter().map(|b| b ^ 0x5a).collect();
-    let mut s = frame.clone();
+    // a concrete second frame that fits (the claim is only that the decoder is ready for it)
+    let m2: Vec<u8> = (0..C).map(|i| 0x40 + i as u8).collect();
+    let mut s = frame.to_vec();
     s.extend_from_slice(&spec_encode(&m2));
-    let (evs, fin) = push_events::<ArrayBuf<LM1>>(&s);
+    let (evs, fin) = push_events::<ArrayBuf<C>>(&s);
     let mut oom = 0;
     let mut data = 0;
     for (i, e) in evs.iter() {
@@ -545,6 +533,32 @@ pub fn capacity<const L: usize, const LM1: usize>(p: &[u8]) -> u32 {
     if fin.is_some() {
         fail(1625);
     }
+}
+
+pub fn capacity<const L: usize, const LM1: usize>(p: &[u8]) -> u32 {
+    let frame = spec_encode(p);
+    // capacity exactly L: delivered
+    expect_single::<ArrayBuf<L>>(&frame, p, 1600);
+    {
+        let mut r = SmlReader::with_static_buffer::<L>().from_slice(&frame);
+        match r.next::<DecodedBytes>() {
+            Some(Ok(m)) => {
+                if m != p {
+                    fail(1611);
+                }
+            }
+            _ => fail(1610),
+        }
+    }
+    // every capacity below L
+    under::<0>(p, &frame);
+    under::<1>(p, &frame);
+    under::<2>(p, &frame);
+    under::<3>(p, &frame);
+    under::<4>(p, &frame);
+    under::<5>(p, &frame);
+    under::<6>(p, &frame);
+    under::<7>(p, &frame);
     cover(16);
     1
 }
